@@ -1,2 +1,8 @@
-#!/bin/sh
-cd "$(dirname "$0")/harness" && CARGO_NET_OFFLINE=true cargo build --release 2>&1 | tail -3
+#!/bin/bash
+# Offline build of every profile the quick checks use (so a quick check on an unchanged tree
+# only pays a no-op cargo invocation).
+cd "$(dirname "$0")"
+export CARGO_NET_OFFLINE=true
+mkdir -p work evidence replays
+( cd harness && cargo build --release -p runner && cargo build -p runner ) 2>&1 | tail -n 3
+( cd harness-serde && cargo build --release ) 2>&1 | tail -n 2
